@@ -391,6 +391,18 @@ build zz: huge
 build all: phony a1 a2 zz
 default all
 """ % ("x" * 200000), 2, []),
+    # a reference cycle among a rule's variables is noticed when the command line is first needed -- while others run
+    "jobserver/rule_variable_cycle": ("""rule slow
+  command = echo S $out $$(date +%s.%N) >> log; sleep 0.8; echo E $out $$(date +%s.%N) >> log; touch $out
+rule odd
+  command = touch $out $description
+  description = making $out with $command
+build a1: slow
+build a2: slow
+build zz: odd a1
+build all: phony a1 a2 zz
+default all
+""", 2, []),
     # ... or for which no pipe can be made: ninja is out of file descriptors (a low `ulimit -n`, many job slots)
     "jobserver/pipe_fails": ("""rule slow
   command = echo S $out $$(date +%s.%N) >> log; sleep 0.8; echo E $out $$(date +%s.%N) >> log; touch $out
@@ -903,6 +915,13 @@ def c06_process_level(c):
     for p in r["problems"]:
         key = (p["scenario"], p["op"])
         if key in seen:
+            continue
+        known = None
+        for f in c.findings:
+            if f.get("property") == "C06" and nxcheck.matches({"clause": "process-level-jobserver", "facts": {"scenario": p["scenario"]}}, f):
+                known = f
+        if known:
+            c.known(known["id"], "%s [%s] %s" % (known["what"], known["id"], "; ".join(p["problems"])))
             continue
         seen.add(key)
         if len(seen) > 6:
